@@ -117,12 +117,13 @@ def judge_block(index, seed, tree, tier):
     # behaviour must not depend on the permutation (for programs whose exit code the
     # generator does not predict this is the whole behavioural oracle)
     reference_behaviour = next((b for _n, _k, _v, b, _e in observations if b is not None), None)
+    reference_key = next((k for _n, k, _v, b, _e in observations if b is not None), None)
     for number, key, verdict, behaviour, err in observations:
         if behaviour is not None and behaviour != reference_behaviour:
             return stats, violation(
                 f"permuting the contributions changes the behaviour: exit {behaviour[0]} here, exit "
                 f"{reference_behaviour[0]} for the first permutation", orders[number], key,
-                {"stdout": behaviour[1].decode("utf8", "replace")[-300:]})
+                {"stdout": behaviour[1].decode("utf8", "replace")[-300:], "reference_key": str(reference_key)})
     # acceptance and behaviour must not depend on the hash key either (the bytes of a diagnostic
     # are C16's concern: the same generated programs are part of C16's corpus)
     by_order = {}
@@ -154,7 +155,10 @@ def replay_block(path):
         other = os.path.join(tree, "lib", "replay-reference.zy")
         with open(other, "w") as handle:
             handle.write(payload["reference_program"].replace("<BUILTIN>", builtin))
-        a = run_under_seam([ZYDECO, "run", other], key, cwd=tree, timeout=20)
+        # the first permutation was observed under its own hash key: a behaviour that depends on
+        # the key as well as on the order only reproduces with both keys as recorded
+        detail = payload.get("detail") if isinstance(payload.get("detail"), dict) else {}
+        a = run_under_seam([ZYDECO, "run", other], int(detail.get("reference_key", key)), cwd=tree, timeout=20)
         b = run_under_seam([ZYDECO, "run", file], key, cwd=tree, timeout=20)
         if (a[0], a[1]) != (b[0], b[1]):
             problem = f"behaviour differs between two permutations: exit {a[0]} vs exit {b[0]}"
